@@ -6,7 +6,8 @@
     about extrema FAIL on the library (known finding K-C08-1), so no theorem is stated there. *)
 From Coq Require Import Reals ZArith List.
 From Coquelicot Require Import Coquelicot.
-From LP Require Import Num NumR OrdLaws C01_Model C01_Proofs C01_Proofs_Global C08_Model C08_Proofs C08_Proofs_Ctor C08_Proofs_Life C08_Proofs_More C08_Proofs_Sel C08_Proofs_Ref.
+From LP Require Import Num NumR OrdLaws C01_Model C01_Proofs C01_Proofs_Global C08_Model C08_Proofs C08_Proofs_Ctor C08_Proofs_Life C08_Proofs_More C08_Proofs_Sel C08_Proofs_Ref C08_Proofs_P7.
+From Coq Require Import Sorted Bool.
 Import ListNotations.
 Local Open Scope R_scope.
 
@@ -345,3 +346,82 @@ Theorem C08_global_bound_accepted_points_refuted :
     interpolate ROps (ptab c xs ys) x = Ok v /\ global_minimum ROps (ptab c xs ys) = Ok r /\ v < r.
 Proof. exact global_bound_accepted_points_refuted. Qed.
 Print Assumptions C08_global_bound_accepted_points_refuted.
+
+(** ---- seventh pass ---- *)
+
+(** "Global_Minimum/Global_Maximum ... the smallest and largest over the whole domain": the domain is the public member [domain] the
+    object carries.  After ANY history of Set_Prefactor / Multiply it is {x_0, x_{N-1}} (1-D) resp. {{x_0, x_last}, {y_0, y_last}} (2-D) *)
+Theorem C08_domain_member xs ys f ops :
+  domain1 (fold_left apply_pop ops (tab xs ys)) = [nth 0 xs 0; nth (length xs - 1) xs 0] /\
+  domain2 (fold_left (fun o p => match p with SetP v => set_prefactor2 o v | Mul v => multiply2 ROps o v end) ops (pgrid 1 xs ys f))
+  = [[nth 0 xs 0; nth (length xs - 1) xs 0]; [nth 0 ys 0; nth (length ys - 1) ys 0]].
+Proof. exact (conj (domain_history xs ys ops) (domain_history_2d xs ys f ops)). Qed.
+Print Assumptions C08_domain_member.
+
+(** "... so no evaluation ever falls outside them": EVERY call of operator() / Interpolate with an argument between domain[0] and
+    domain[1] (2-D: in the rectangle domain[0] x domain[1], whichever cell it falls into) returns a value between Global_Minimum and
+    Global_Maximum, for a prefactor of either sign.  (non-vacuity: C08_p7_example) *)
+Theorem C08_global_bounds_whole_domain xs ys : valid_table xs ys -> forall c,
+  exists mn mx, global_minimum ROps (ptab c xs ys) = Ok mn /\ global_maximum ROps (ptab c xs ys) = Ok mx /\
+    forall x, nth 0 (domain1 (ptab c xs ys)) 0 <= x <= nth 1 (domain1 (ptab c xs ys)) 0 ->
+      exists v, call1 ROps (ptab c xs ys) x = Ok v /\ interpolate ROps (ptab c xs ys) x = Ok v /\ mn <= v <= mx.
+Proof. exact (global_bounds_whole_domain xs ys). Qed.
+Print Assumptions C08_global_bounds_whole_domain.
+
+Theorem C08_global_bounds_whole_domain_2d xs ys f : valid_grid xs ys f -> forall c,
+  exists mn mx, global_minimum2 ROps (pgrid c xs ys f) = Ok mn /\ global_maximum2 ROps (pgrid c xs ys f) = Ok mx /\
+    forall x y,
+      nth 0 (nth 0 (domain2 (pgrid c xs ys f)) []) 0 <= x <= nth 1 (nth 0 (domain2 (pgrid c xs ys f)) []) 0 ->
+      nth 0 (nth 1 (domain2 (pgrid c xs ys f)) []) 0 <= y <= nth 1 (nth 1 (domain2 (pgrid c xs ys f)) []) 0 ->
+      exists v, call2 ROps (pgrid c xs ys f) x y = Ok v /\ mn <= v <= mx.
+Proof. exact (global_bounds_whole_domain_2d xs ys f). Qed.
+Print Assumptions C08_global_bounds_whole_domain_2d.
+
+(** "all tables as in C01" -- the constructor Interpolation_2D(data_table, ...), converse of C08_table_constructor_grid: whenever it
+    returns an object, the data table IS the x-major listing of a rectangular table f over strictly increasing axes xs, ys, and the
+    object is the one the constructor from lists makes of (xs, ys, f).  So a table with rows out of order, a repeated or a missing
+    node never yields an object.  (non-vacuity: C08_p7_example) *)
+Theorem C08_table_constructor_accepts_only_listings data xd yd fd o :
+  C08_Model.construct2_table ROps data xd yd fd = Ok o ->
+  exists xs ys f, StronglySorted Rlt xs /\ StronglySorted Rlt ys /\
+    length f = length xs /\ List.Forall (fun row => length row = length ys) f /\
+    data = grid_rows xs ys f /\ construct2 ROps xs ys f xd yd fd = Ok o.
+Proof. exact (table_constructor8_only_listings data xd yd fd o). Qed.
+Print Assumptions C08_table_constructor_accepts_only_listings.
+
+(** the two remaining error branches of that constructor, for ANY number type: (#distinct x) * (#distinct y) <> #rows terminates the
+    process ("List lenghts do not fit"), and so does a row that is not the node the fill loop expects ("not in right format") *)
+Theorem C08_table_constructor_error_branches (T : Type) (Ops : NumOps T) :
+  (forall (data : list (list T)) xd yd fd xy, C08_Model.split_rows3 data = Ok xy ->
+     (length (C08_Model.unique_list Ops (C08_Model.sort_list Ops (fst xy))) *
+      length (C08_Model.unique_list Ops (C08_Model.sort_list Ops (snd xy))) <> length data)%nat ->
+     C08_Model.construct2_table Ops data xd yd fd = Exit) /\
+  (forall xv yv ys' dx dy dz rest, nneb Ops xv dx || nneb Ops yv dy = true ->
+     fill_row Ops xv (yv :: ys') ([dx; dy; dz] :: rest) = Exit).
+Proof. exact (conj (@table_constructor8_size_mismatch T Ops) (@fill_row_wrong_node T Ops)). Qed.
+Print Assumptions C08_table_constructor_error_branches.
+
+(** "no evaluation ever falls outside them", in floating point, at the tabulated points: for ANY number type whose comparisons form a
+    total order and whose multiplication by a fixed factor is monotone (premise; true of correctly rounded IEEE multiplication
+    without NaN: non-decreasing for a factor >= 0, non-increasing for a factor <= 0), any object, any table size and any prefactor,
+    prefactor * f lies between Global_Minimum and Global_Maximum for EVERY entry f of the table (1-D; 2-D: every entry of every row).
+    (non-vacuity: ROps_mul_monotone, C08_p7_example) *)
+Theorem C08_global_bounds_every_entry_fp (T : Type) (Ops : NumOps T) : OrdLaws Ops ->
+  (forall c a v b, nle Ops a v -> nle Ops v b ->
+     (nle Ops (nmul Ops c a) (nmul Ops c v) /\ nle Ops (nmul Ops c v) (nmul Ops c b)) \/
+     (nle Ops (nmul Ops c b) (nmul Ops c v) /\ nle Ops (nmul Ops c v) (nmul Ops c a))) ->
+  (forall (o : itab) mn mx, global_minimum Ops o = Ok mn -> global_maximum Ops o = Ok mx ->
+     forall v, In v (iys o) -> nle Ops mn (nmul Ops (ipre o) v) /\ nle Ops (nmul Ops (ipre o) v) mx) /\
+  (forall (o : itab2) mn mx, global_minimum2 Ops o = Ok mn -> global_maximum2 Ops o = Ok mx ->
+     forall row v, In row (jf o) -> In v row -> nle Ops mn (nmul Ops (jpre o) v) /\ nle Ops (nmul Ops (jpre o) v) mx).
+Proof. exact (fun OL M => conj (global_bounds_every_entry Ops OL M) (global_bounds_every_entry_2d Ops OL M)). Qed.
+Print Assumptions C08_global_bounds_every_entry_fp.
+
+(** "prefactor: multiplicative factor applied by Interpolate/Derivative/Integrate" -- "scale with the prefactor ... exactly as Interpolate
+    does": Derivative(x, k) under the prefactor c is c times Derivative(x, k) under 1, for every order k (0: the value, 1..3, and the
+    constant 0 beyond) and EVERY point the library accepts (the 1 % zone included).  (non-vacuity: C08_p7_example, w_accepted) *)
+Theorem C08_derivative_prefactor xs ys : valid_table xs ys -> forall c x k,
+  nth 0 xs 0 - tolL xs < x < nth (length xs - 1) xs 0 + tolR xs ->
+  exists d1, derivative ROps (tab xs ys) x k = Ok d1 /\ derivative ROps (ptab c xs ys) x k = Ok (c * d1).
+Proof. exact (derivative_prefactor xs ys). Qed.
+Print Assumptions C08_derivative_prefactor.
